@@ -211,6 +211,9 @@ def handleActionCodec (op : String) (j : Json) : Except String Json := do
     pure (Json.mkObj [
       ("fields", resJ fieldsJ (toFields a)),
       ("expressible", Json.bool (decide (Expressible a))),
+      -- `Expressible` without the clause on the uuids of the groups after the first (`obj_id` is one cell)
+      ("expressible_mod_tail_uuids", Json.bool (decide (ExpressibleModTailUuids a))),
+      ("forget_tail_uuids", actJ a.forgetTailUuids),
       ("back", resJ actsJ (roundTrip a))])
   | "act.of_fields" => do
     let r ← fieldsOfJ (← j.getObjVal? "f")
